@@ -872,6 +872,52 @@ theorem flip_variable_total (pre : List Cqm.Op) (hpre : ∀ op ∈ pre, OpOK op)
   have hinv : RefInv m := ⟨history_inv pre hpre, history_labels pre, history_keysym pre hpre, history_sorted pre hpre⟩
   exact flipF_none_iff hinv v
 
+/-- **The overlap test is a function of what the model shows.**  "`v` is a variable of some discrete constraint" — what
+    `remove_variable(v)` refuses on and `add_discrete(…, check_overlaps=True)` tests (`Cqm.inDiscrete`, an index-level walk over
+    `is_discrete()` and `has_variable`) — equals `LCqm.inDiscreteWith` on the list of label-keyed polynomials and the
+    `is_linear()` flags, from any reachable state; hence `remove_variable(v)` raises exactly when `v` is unknown or that
+    label-level test holds, and then leaves the model as it was.  (r7c's open item "the overlap test of add_discrete stays
+    index-level": `is_linear` is the one observation needed beyond the polynomials.) -/
+theorem overlap_test_is_label_level (pre : List Cqm.Op) (hpre : ∀ op ∈ pre, OpOK op) (v : Label) :
+    let m := ({} : Cqm).run pre
+    (∀ g, m.idx? v = some g → m.inDiscrete g = (absCqm m).inDiscreteWith (linFlags m) v)
+    ∧ ((m.step (.removeVariable v)).2 ≠ none ↔ ((absCqm m).info v = none ∨ (absCqm m).inDiscreteWith (linFlags m) v = true))
+    ∧ ((m.step (.removeVariable v)).2 ≠ none → (m.step (.removeVariable v)).1 = m) := by
+  intro m
+  have hinv : RefInv m := ⟨history_inv pre hpre, history_labels pre, history_keysym pre hpre, history_sorted pre hpre⟩
+  have h1 : ∀ g, m.idx? v = some g → m.inDiscrete g = (absCqm m).inDiscreteWith (linFlags m) v :=
+    fun g hg => inDiscrete_abs hinv.wf hinv.lab (idx?_get hg)
+  have hstep : m.step (.removeVariable v) = m.removeVariableR v := rfl
+  refine ⟨h1, ?_, ?_⟩
+  · rw [hstep]
+    unfold Cqm.removeVariableR
+    cases hg : m.idx? v with
+    | none =>
+      have : (absCqm m).info v = none := by
+        show (Cqm.findIdx v m.labels 0).map _ = none
+        have : Cqm.findIdx v m.labels 0 = none := hg
+        rw [this]; rfl
+      simp [this]
+    | some g =>
+      have hinfo : (absCqm m).info v ≠ none := by
+        show (Cqm.findIdx v m.labels 0).map _ ≠ none
+        have : Cqm.findIdx v m.labels 0 = some g := hg
+        rw [this]; simp
+      simp only []
+      rw [← h1 g hg]
+      by_cases hd : m.inDiscrete g = true
+      · rw [if_pos hd]; simp [hd]
+      · rw [if_neg hd]; simp [hd, hinfo]
+  · rw [hstep]
+    unfold Cqm.removeVariableR
+    cases hg : m.idx? v with
+    | none => intro _; rfl
+    | some g =>
+      simp only []
+      by_cases hd : m.inDiscrete g = true
+      · rw [if_pos hd]; intro _; rfl
+      · rw [if_neg hd]; intro h; exact absurd rfl h
+
 /-- not vacuous, both outcomes of the BINARY branch on `demo` + a discrete constraint `d` over x, y: the first flip of `x`
     makes `d` no longer one-hot, so `is_discrete()` is False when the marks are examined and the mark STAYS; the second flip
     restores the one-hot form and the mark is cleared — the function gives the marks the model has, and `is_linear()` is what
